@@ -42,7 +42,7 @@ COMMANDS = ["SM,100,10,-10", "EM,1,1", "SP,1,100", "TP", "SL,7", "SC,4,12000", "
             "ST," + "n" * 61,                                                                        # 64 bytes + CR
             "ST," + "n" * 62, "ST," + "x" * 126, "ST," + "y" * 200,
             "ST,{AxiDraw}", "ST,{}", "ST,{0}", "ST,%s %d", "ST,100%", "ST,{a}{", "ST,}{"]
-EXCS = ("SerialException", "SerialTimeoutException", "PortNotOpenError", "OSError")
+EXCS = ("SerialException", "SerialTimeoutException", "PortNotOpenError", "OSError") + serialsim.OS_ERRNO_EXC
 
 
 def classify(rec):
@@ -354,6 +354,9 @@ def run(ctx):
     for _ in range(ctx.budget(1500, 12000)):
         if not ctx.alive():
             break
+        if rng.random() < 0.06:
+            from .. import noise
+            noise.burst(ctx, rng, exclude=('versions', 'discovery'))
         history(ctx, rng, with_faults=False)
         history(ctx, rng, with_faults=True)
     for _ in range(ctx.budget(4000, 40000)):
@@ -372,6 +375,7 @@ def run(ctx):
                 "fault:101+ empty reads", "fault:error line", "fault:goes silent mid-reply", "fault:one empty read first"):
         ctx.need(cls, 40)
     ctx.need("systematic", 300)
+    ctx.need("history: after calls to other library functions", 50)
     ctx.need("monitor:primitive invocations checked", 10000)
     ctx.need("monitor:conforming query results attributed", 2000)
 
